@@ -604,12 +604,24 @@ bool qtreetbl_getnext(qtreetbl_t *tbl, qtreetbl_obj_t *obj, const bool newmem) {
             cursor = cursor->left;
             continue;
         } else if (cursor->tid != tid) {
+            void *name = cursor->name;
+            void *data = cursor->data;
+            if (newmem) {
+                name = qmemdup(cursor->name, cursor->namesize);
+                data = qmemdup(cursor->data, cursor->datasize);
+                if (name == NULL || (cursor->data != NULL
+                                     && cursor->datasize > 0 && data == NULL)) {
+                    // leave the cursor where it is, this step can be retried
+                    free(name);
+                    free(data);
+                    errno = ENOMEM;
+                    return false;
+                }
+            }
             cursor->tid = tid;
             *obj = *cursor;
-            if (newmem) {
-                obj->name = qmemdup(cursor->name, cursor->namesize);
-                obj->data = qmemdup(cursor->data, cursor->datasize);
-            }
+            obj->name = name;
+            obj->data = data;
             obj->next = cursor;  // store original address in tree for next iteration
             return true;
         } else if (cursor->right != NULL && cursor->right->tid != tid) {
@@ -763,6 +775,16 @@ qtreetbl_obj_t qtreetbl_find_nearest(qtreetbl_t *tbl, const void *name,
         if (newmem) {
             retobj.name = qmemdup(obj->name, obj->namesize);
             retobj.data = qmemdup(obj->data, obj->datasize);
+            if (retobj.name == NULL || (obj->data != NULL
+                                        && obj->datasize > 0
+                                        && retobj.data == NULL)) {
+                free(retobj.name);
+                free(retobj.data);
+                memset((void*) &retobj, 0, sizeof(retobj));
+                errno = ENOMEM;
+                qtreetbl_unlock(tbl);
+                return retobj;
+            }
         }
         // set travel info to be used for iteration in getnext()
         retobj.tid = tbl->tid;
